@@ -23,6 +23,9 @@ func (X *Exec) calleeNames(cc *ssa.CallCommon) []string {
 	}
 	switch v := cc.Value.(type) {
 	case *ssa.Function:
+		if o := v.Origin(); o != nil && X.E.P.Keys[o] != "" {
+			v = o // instantiation of a generic function: known by the generic's names
+		}
 		k := X.E.P.Keys[v]
 		if k == "" {
 			k = externKey(v)
@@ -177,7 +180,33 @@ func (X *Exec) clauseCtx(fr *Frame, st *State, extra map[string]*Val, what strin
 	for k, v := range extra {
 		c.Vars[k] = v
 	}
+	c.TypeEnv = typeEnvOf(fr.Fn)
 	return c
+}
+
+// typeEnvOf: the type parameters visible in a (generic) function, by name.
+func typeEnvOf(fn *ssa.Function) map[string]types.Type {
+	for f := fn; f != nil; f = f.Parent() {
+		var tps *types.TypeParamList
+		if f.Signature.Recv() != nil {
+			tps = f.Signature.RecvTypeParams()
+		}
+		env := map[string]types.Type{}
+		if tps != nil {
+			for i := 0; i < tps.Len(); i++ {
+				env[tps.At(i).Obj().Name()] = tps.At(i)
+			}
+		}
+		if tp := f.Signature.TypeParams(); tp != nil {
+			for i := 0; i < tp.Len(); i++ {
+				env[tp.At(i).Obj().Name()] = tp.At(i)
+			}
+		}
+		if len(env) > 0 {
+			return env
+		}
+	}
+	return nil
 }
 
 func (X *Exec) frameEntry(fr *Frame) *State {
@@ -500,6 +529,9 @@ func (X *Exec) applyContract(fr *Frame, st *State, fs *FuncSpec, callee *ssa.Fun
 	pkg := calleePkg(callee, fs, X, fr)
 	mk := func(cur, old *State, what string) *SpecCtx {
 		c := &SpecCtx{X: X, St: cur, Old: old, Vars: map[string]*Val{}, OldVars: map[string]*Val{}, Bound: map[string]*Val{}, Pkg: pkg, What: what}
+		if callee != nil {
+			c.TypeEnv = typeEnvOf(callee)
+		}
 		for k, v := range vars {
 			c.Vars[k] = v
 			c.OldVars[k] = v
